@@ -382,9 +382,8 @@ RebinWeightsArePartition(shape, d, sample) ==    \* per axis and output subscrip
 (* specified outcome is the same: Expected takes neither.  (FormIndependent is therefore    *)
 (* true by construction; it is stated so that the harness' rotation of forms is explicit.)  *)
 ArrayDtypes == {"f8", "f4", "i8", "i4", "i2", "u2", "u1", "bool"}
-ScalarForms == {"int", "np.int64", "np.int32", "np.int16", "np.uint8", "0-d array"}
-DimsForms == {"tuple of int", "tuple of np.int64", "tuple of np.int32", "tuple of np.int16", "tuple of 0-d arrays",
-              "1-d ndarray", "list"}
+ScalarForms == {"int", "np.int64", "np.int32", "np.int16", "np.uint8"}       \* integers; a 0-d array is not one
+DimsForms == {"tuple of int", "tuple of np.int64", "tuple of np.int32", "tuple of np.int16", "1-d ndarray", "list"}
 ExpectedFor(dt, form, fn, x, shape, w, flag, d) == Expected(fn, x, shape, w, flag, d)
 FormIndependent(fn, x, shape, w, flag, d) ==
   \A dt \in ArrayDtypes : \A form \in ScalarForms \cup DimsForms :
@@ -395,6 +394,9 @@ FormIndependent(fn, x, shape, w, flag, d) ==
 (* where the exact value is 200), i.e. the result must be at most 1 away from the exact    *)
 (* value per resampled axis (rebin rounds once per axis).  A wrap-around never is.         *)
 (* Selections (medians, SAMPLE, uniq) stay exact.                                          *)
+(* The ORDER in which rebin visits the axes is not observable in the exact values (law     *)
+(* RebinAxesCommute); with integer intermediates it moves a value only inside this bound   *)
+(* (each step is a convex combination plus one truncation), so it is not asserted.         *)
 IntegerResultOK(got, exact, slack) == Le(RAbs(Sub(got, exact)), OfInt(slack))
 RebinSlack(shape, d) == Max(1, Cardinality({a \in DOMAIN shape : d[a] # shape[a]}))
 (* Integer grids are reached by scaling an enumerated array with a positive integer K      *)
